@@ -217,3 +217,64 @@ package multiplex
 //@     assume(sameAsHonestExcept1213(m, m2))
 //@     assert(sameAsHonest(m, m2))
 //@ }
+
+// ---------------------------------------------------------------------------------------------
+// Streams and sessions (C13, C03, C12, C14 sender side, C01). Concurrency discipline:
+//   - Stream.writingFrame (Seq, Closing, Payload of the frame being sent) is guarded by Stream.writingM
+//   - Session.streams is guarded by Session.streamsM
+//   - declared lock order; every acquisition is checked against it
+//   - closed flags / counters are atomics that other goroutines may change between two steps
+// ---------------------------------------------------------------------------------------------
+//@ lockorder Stream.writingM < Session.streamsM < streamBuffer.recvM < streamBufferedPipe.rwCond.L < datagramBufferedPipe.rwCond.L
+//@ guardedby Stream.writingM: Stream.writingFrame
+//@ guardedby Session.streamsM: Session.streams
+//@ shared Stream.closed flag
+//@ shared Session.closed flag
+//@ shared switchboard.broken flag
+//@ shared Session.activeStreamCount any
+//@ shared Session.nextStreamID monotone
+//@ shared switchboard.connsCount any
+
+// the session's send buffers are as large as the on-wire limit
+//@ poolinv Session.streamObfsBufPool: typeIs[*[]byte](x) && x.(*[]byte) != nil && len(*(x.(*[]byte))) == self.streamSendBufferSize
+//@ poolinv Session.recvFramePool: typeIs[*Frame](x) && x.(*Frame) != nil
+
+//@ ghost func seshOK(sesh *Session) bool {
+//@     return sesh != nil && sesh.sb != nil && cipherOK(&sesh.Obfuscator) && sesh.Valve != nil && sesh.maxStreamUnitWrite == sesh.MsgOnWireSizeLimit - 14 - 255 && sesh.streamSendBufferSize == sesh.MsgOnWireSizeLimit && sesh.maxStreamUnitWrite > 0
+//@ }
+//@ ghost func nextSeq(a uint64, b uint64) bool { return (a < 18446744073709551615 && b == a + 1) || (a == 18446744073709551615 && b == 0) }
+
+//@ func MakeSession$2
+//@   # (the pool's New runs only after MakeSession initialised the captured session: residual assumption)
+//@   requires sesh != nil && sesh.streamSendBufferSize >= 0
+//@   ensures typeIs[*[]byte](ret0) && ret0.(*[]byte) != nil && len(*(ret0.(*[]byte))) == sesh.streamSendBufferSize
+//@   flag noframe
+
+//@ func (*switchboard).send
+//@   requires sb != nil && sb.session != nil && sb.valve != nil
+//@   ensures allOrError: err == nil ==> n == len(data)
+//@   modifies *
+//@   preserves Frame.StreamID, Frame.Seq, Frame.Closing, Frame.Payload, Stream.id, Stream.session, Session.sb, Session.MsgOnWireSizeLimit, Session.maxStreamUnitWrite, Session.streamSendBufferSize, Session.Unordered, Session.Valve, Obfuscator.payloadCipher, switchboard.session, switchboard.valve
+
+//@ func (*Session).SetTerminalMsg
+//@   flag trusted
+//@   modifies sesh.terminalMsg, sesh.terminalMsgSetter
+
+//@ func (*Session).passiveClose
+//@   requires sesh != nil
+//@   modifies *
+//@   preserves Frame.StreamID, Frame.Seq, Frame.Closing, Frame.Payload, Stream.id, Stream.session, Session.sb, Session.MsgOnWireSizeLimit, Session.maxStreamUnitWrite, Session.streamSendBufferSize, Session.Unordered, Session.Valve, Obfuscator.payloadCipher, switchboard.session, switchboard.valve
+//@   flag trusted
+
+// Seq is incremented exactly once per encode, on every path (a number may be skipped, never reused).
+//@ func (*Stream).obfuscateAndSend
+//@   requires s.session != nil && seshOK(s.session) && s.session.sb.session != nil && s.session.sb.valve != nil
+//@   requires locked: held(s.writingM)
+//@   requires placement: payloadOffsetInBuf == 14 ==> aliases(s.writingFrame.Payload, buf, 14)
+//@   requires copyMode: payloadOffsetInBuf != 14 ==> disjoint(s.writingFrame.Payload, buf)
+//@   requires keyApart: arrayOf(buf) != arrayOf(s.session.sessionKey) && arrayOf(s.writingFrame.Payload) != arrayOf(s.session.sessionKey)
+//@   ensures seqOnce: nextSeq(old(s.writingFrame.Seq), s.writingFrame.Seq)
+//@   ensures frameKept: s.writingFrame.StreamID == old(s.writingFrame.StreamID) && s.writingFrame.Closing == old(s.writingFrame.Closing) && sameSlice(s.writingFrame.Payload, old(s.writingFrame.Payload))
+//@   ensures bigEnoughSucceedsEncoding: len(old(s.writingFrame.Payload)) == 0 ==> ret0 != nil
+//@   modifies *
+//@   preserves Frame.StreamID, Frame.Closing, Frame.Payload, Stream.id, Stream.session, Session.sb, Session.MsgOnWireSizeLimit, Session.maxStreamUnitWrite, Session.streamSendBufferSize, Session.Unordered, Session.Valve, Obfuscator.payloadCipher, switchboard.session, switchboard.valve
